@@ -48,13 +48,56 @@ def parseHexL : List Char → Option Bytes
     let r ← parseHexL rest
     pure (UInt8.ofNat (x * 16 + y) :: r)
 
+/-- byte `i` of the pattern `p<seed>:<n>` (same formula in go/cmd/c10/run.go) -/
+def patByte (seed i : Nat) : UInt8 := UInt8.ofNat ((seed + 131 * i + 7 * (i / 256)) % 256)
+
+def parsePattern (s : String) : Option Bytes :=
+  match (String.ofList (s.toList.drop 1)).splitOn ":" with
+  | [a, b] =>
+    match parseDec a, parseDec b with
+    | some seed, some n =>
+      if seed < 4294967296 ∧ n ≤ 1048576 then some ((List.range n).map (patByte seed)) else none
+    | _, _ => none
+  | _ => none
+
+/-- `-` (empty), lower-case hex pairs, or `p<seed>:<n>` (n pattern bytes) -/
 def parseHex (s : String) : Option Bytes :=
-  if s == "-" then some [] else if s.isEmpty then none else parseHexL s.toList
+  if s == "-" then some [] else if s.isEmpty then none
+  else if s.toList.head? == some 'p' then parsePattern s
+  else parseHexL s.toList
 
 def hexChar (n : Nat) : Char := if n < 10 then Char.ofNat (48 + n) else Char.ofNat (87 + n)
 
+/-- hex up to 64 bytes, beyond that `#<length>:<digest>` -/
 def showHex (bs : Bytes) : String :=
-  if bs.isEmpty then "-" else String.ofList (bs.flatMap (fun b => [hexChar (b.toNat / 16), hexChar (b.toNat % 16)]))
+  if bs.isEmpty then "-"
+  else if bs.length > 64 then s!"#{bs.length}:{bs.foldl (fun h b => (h * 31 + b.toNat + 1) % 4294967296) 0}"
+  else String.ofList (bs.flatMap (fun b => [hexChar (b.toNat / 16), hexChar (b.toNat % 16)]))
+
+/-- uniform chunks of `k ≥ 1` bytes -/
+def chunkEvery (k : Nat) : Nat → Bytes → List Bytes
+  | 0, _ => []
+  | f+1, bs => if bs.isEmpty then [] else bs.take k :: chunkEvery k f (bs.drop k)
+
+/-- chunk sizes `1 + x mod 8192`, `x := (x*1103515245+12345) mod 2^31` -/
+def chunkRandom : Nat → Nat → Bytes → List Bytes
+  | 0, _, _ => []
+  | f+1, x, bs =>
+    if bs.isEmpty then [] else
+      let x' := (x * 1103515245 + 12345) % 2147483648
+      let n := 1 + x' % 8192
+      bs.take n :: chunkRandom f x' (bs.drop n)
+
+def parseChunking (spec : String) (bs : Bytes) : Option (List Bytes) :=
+  match spec.toList with
+  | 'r' :: rest =>
+    match parseDec (String.ofList rest) with
+    | some x => if x < 2147483648 then some (chunkRandom bs.length x bs) else none
+    | none => none
+  | _ =>
+    match parseDec spec with
+    | some k => if 1 ≤ k ∧ k ≤ 1048576 then some (chunkEvery k bs.length bs) else none
+    | none => none
 
 def parseChunks (s : String) : Option (List Bytes) :=
   if s == "." then some [] else (s.splitOn ",").mapM parseHex
@@ -143,7 +186,11 @@ def isStrTy : Ty → Bool
 def step (st : St) (line : String) : St × String :=
   let ws := words line
   match ws with
-  | ["new"] => (.buf [], "ok len=0")
+  | ["new"] => (.buf newBuffer, s!"ok len={newBuffer.length}")
+  | ["news", n] =>
+    match parseDec n with
+    | some n => if n ≤ 1048576 then (.buf (newSized n), s!"ok len={(newSized n).length}") else (.none, "bad-op")
+    | none => (.none, "bad-op")
   | ["load", h] =>
     match parseHex h with
     | some bs => (.buf bs, s!"ok len={bs.length}")
@@ -177,6 +224,10 @@ def step (st : St) (line : String) : St × String :=
           | ["bytes"] => (st, "bytes=" ++ showHex bs)
           | ["len"] => (st, s!"len={bs.length}")
           | ["reset"] => (.buf [], "ok len=0")
+          | ["tostream", e, spec] =>
+            match (if e == "0" then some false else if e == "1" then some true else none), parseChunking spec bs with
+            | some e, some cs => let s : Src := ⟨e, cs⟩; (.stream s, s!"ok left={s.flat.length}")
+            | _, _ => (st, "bad-op")
           | ["rewrite", p, h] =>
             match parseCount p, parseHex h with
             | some p, some h =>
@@ -193,6 +244,15 @@ def step (st : St) (line : String) : St × String :=
             | _, _ => (st, "bad-op")
           | _ => (st, "bad-op")
     | .stream s =>
+      match (match ws with
+             | ["xrstr"] => some Ty.str
+             | ["xrlstr", l] => (parseU 32 l).map (fun l => Ty.lstr (UInt32.ofNat l))
+             | _ => none) with
+      | some ty =>
+        -- probe in a memory-capped child process (T-observable): the model's answer, or the runtime's fatal abort
+        let r := decStream Nv.Gen.C10.cfg ty s
+        (.none, "{" ++ showOut r.1 ++ s!" left={r.2.flat.length}" ++ "|fatal:out-of-memory}")
+      | none =>
       match parseRead ws with
       | some ty =>
         if !ty.streamable then (st, "bad-op")
